@@ -1,0 +1,63 @@
+//go:build verif
+
+package kmsg
+
+// Verification contracts (comments only), read by /verif/govc. Compiled only with -tags verif; no code.
+// The Reader contracts they rely on are in internal/kbin/zz_verif_contracts.go.
+
+// ---- C16: decoders are total (never panic) and their allocations are bounded by the input size ----
+// Every make([]T, n) below is preceded by an *ArrayLen read whose contract gives n <= bytes remaining.
+
+// The three framed log formats: a successful ReadFrom has consumed the whole fixed-size header, so the
+// input was at least that long (kgo's batch walk relies on >= 26 for all three).
+
+//@ func (v *MessageV0) readFrom(src []byte, unsafe bool) (err error)
+//@   prop C16
+//@   nopanic
+//@   ensures err == nil ==> len(src) >= 26
+
+//@ func (v *MessageV0) ReadFrom(src []byte) (err error)
+//@   prop C16
+//@   nopanic
+//@   ensures err == nil ==> len(src) >= 26
+
+//@ func (v *MessageV1) readFrom(src []byte, unsafe bool) (err error)
+//@   prop C16
+//@   nopanic
+//@   ensures err == nil ==> len(src) >= 34
+
+//@ func (v *MessageV1) ReadFrom(src []byte) (err error)
+//@   prop C16
+//@   nopanic
+//@   ensures err == nil ==> len(src) >= 34
+
+//@ func (v *RecordBatch) readFrom(src []byte, unsafe bool) (err error)
+//@   prop C16
+//@   nopanic
+//@   ensures err == nil ==> len(src) >= 61
+
+//@ func (v *RecordBatch) ReadFrom(src []byte) (err error)
+//@   prop C16
+//@   nopanic
+//@   ensures err == nil ==> len(src) >= 61
+
+//@ func (v *Record) readFrom(src []byte, unsafe bool) (err error)
+//@   prop C16
+//@   nopanic
+//@   allocbound
+
+//@ func (v *Record) ReadFrom(src []byte) (err error)
+//@   prop C16
+//@   nopanic
+
+//@ func (s *StickyMemberMetadata) readFrom(src []byte, unsafe bool) (err error)
+//@   prop C16
+//@   nopanic
+//@   requires cap(s.CurrentAssignment) < 1<<31      // int32(cap(...)) is used by the code; a reused slice is far smaller
+//   (no allocbound here: the code sizes by numPartitions - int32(cap(a.Partitions)), which is only bounded by the
+//    input when the reused slices have fewer than 2^31 elements; nopanic is what is proved)
+//@   loop 0 invariant len(s.CurrentAssignment) == int(numAssignments)
+
+//@ func internalReadTags(b *kbin.Reader) (t Tags)
+//@   prop C16
+//@   nopanic
